@@ -38,12 +38,17 @@ def run(rep):
             splan = [[0, r.choice([1, 5, 1000])] for _ in range(r.randrange(0, 3))] if hs else []
             cases.append(vfmt([data, pl, splan, [], hs, hk, ops]))
             group_of.append(g)
+    nb = 150 if quick else 4000
+    for _ in range(nb):
+        cases.append(readcore.gen_boundary_case(r)); group_of.append(-1)
     st = vlib.correspond(rep, "readCore", runner, core, cases, oracle=readcore.core_oracle_c01)
     # oracle across partitions, on the implementation's own outputs
     path = vlib.write_cases(cases, "c05.cases")
     rc, ilines, err = vlib.run_exe(core, path)
     groups = {}
     for c, l, g in zip(cases, ilines, group_of):
+        if g < 0:
+            continue
         try:
             groups.setdefault(g, []).append((c, readcore.core_observation(c, l)))
         except Exception:
